@@ -540,7 +540,58 @@ func (o *oracleRunner) oneCase(s, re string, flags any) {
 			o.fail(name, s, re, flags, "got "+rs(out))
 		}
 	}
-	// named captures surface in capture; scan is the documented projection of the global matches
+	// named captures surface: the names of the regex's groups (Go's regexp.SubexpNames, independent of match's own
+	// output) must label the captures of EVERY match in order — also for groups that did not participate — and capture must
+	// have exactly the named groups as keys (a non-participating named group is null, not absent)
+	if pattern, _, ok := translate(re, flags); ok {
+		if g := goRegexp(pattern); g != nil {
+			names := g.SubexpNames()[1:]
+			var named []string
+			for _, nm := range names {
+				if nm != "" {
+					named = append(named, nm)
+				}
+			}
+			for _, m := range matches {
+				caps, _ := m.(map[string]any)["captures"].([]any)
+				if len(caps) != len(names) {
+					o.fail("capture-names", s, re, flags, fmt.Sprintf("%d captures for %d groups", len(caps), len(names)))
+					break
+				}
+				bad := false
+				for i, cp := range caps {
+					nm, _ := cp.(map[string]any)["name"].(string)
+					if nm != names[i] {
+						o.fail("capture-names", s, re, flags, fmt.Sprintf("capture %d is named %q, the group is named %q", i, nm, names[i]))
+						bad = true
+						break
+					}
+				}
+				if bad {
+					break
+				}
+			}
+			if got, isArr := run1(qCapture, s, re, flags).([]any); isArr {
+				for _, obj := range got {
+					om, _ := obj.(map[string]any)
+					uniq := map[string]bool{}
+					for _, nm := range named {
+						uniq[nm] = true
+					}
+					if len(om) != len(uniq) {
+						o.fail("capture-names", s, re, flags, fmt.Sprintf("capture has %d keys, the regex has %d named groups", len(om), len(uniq)))
+						break
+					}
+					for nm := range uniq {
+						if _, ok := om[nm]; !ok {
+							o.fail("capture-names", s, re, flags, fmt.Sprintf("capture lacks the named group %q", nm))
+							break
+						}
+					}
+				}
+			}
+		}
+	}
 	wantCap := make([]any, 0, len(matches))
 	for _, m := range matches {
 		obj := map[string]any{}
